@@ -61,13 +61,18 @@ async def _aiter(num=0):  # pragma: no cover
 
 async def _invalidate_middleware(call, cmd: Command, backend: _BackendInterface, *args, **kwargs):
     if _INVALIDATE_FURTHER.get() and cmd in RETRIEVE_CMDS:
+        # the deletion is handed to the backend directly, not through the disable middleware: a disabled
+        # delete command is not issued (the read is still answered as a miss, so the caller recomputes)
         if "key" in kwargs:
-            await backend.delete(kwargs["key"])
+            if not backend.is_disable(Command.DELETE):
+                await backend.delete(kwargs["key"])
             return kwargs.get("default")
         if cmd == Command.GET_MATCH:
-            await backend.delete_match(kwargs["pattern"])
+            if not backend.is_disable(Command.DELETE_MATCH):
+                await backend.delete_match(kwargs["pattern"])
             return _aiter()
         if cmd == Command.GET_MANY:
-            await backend.delete_many(*args)
+            if not backend.is_disable(Command.DELETE_MANY):
+                await backend.delete_many(*args)
             return ()
     return await call(*args, **kwargs)
